@@ -427,3 +427,32 @@ func indexedBy(v ssa.Value, params []*ssa.Parameter, idx int) bool {
 	}
 	return false
 }
+
+// Mutants for rules that are evaluated under another property's ids (aliases) and for rules whose instances on
+// today's tree are all known findings (the mutant adds a NEW offending construct, which must be reported).
+func init() {
+	addMutants(
+		Mutant{Prop: "C01", Name: "url-from-request", File: "internal/adapter/proxy/sherpa/service_retry.go", Rule: "C01-R2",
+			Old: "	proxyReq, err := http.NewRequestWithContext(ctx, r.Method, targetURL.String(), r.Body)", New: "	proxyReq, err := http.NewRequestWithContext(ctx, r.Method, endpoint.URLString+r.URL.RequestURI(), r.Body)"},
+		Mutant{Prop: "C01", Name: "query-dropped", File: "internal/adapter/proxy/common/url_builder.go", Rule: "C01-R2q",
+			Old: "	u.RawQuery = r.URL.RawQuery // always copy; empty is fine\n", New: ""},
+		Mutant{Prop: "C03", Name: "lc-skip-routable-filter", File: "internal/adapter/balancer/least_connections.go", Rule: "C03-R5",
+			Old: "	for _, endpoint := range routable {\n		connections := connectionStats[endpoint.URLString]", New: "	for _, endpoint := range endpoints {\n		connections := connectionStats[endpoint.URLString]"},
+		Mutant{Prop: "C03", Name: "retry-marks-busy", File: "internal/adapter/proxy/core/retry.go", Rule: "C03-R7",
+			Old: "	endpointCopy.Status = domain.StatusOffline", New: "	endpointCopy.Status = domain.StatusBusy"},
+		Mutant{Prop: "C11", Name: "retry-refreshes-candidates", File: "internal/adapter/proxy/core/retry.go", Rule: "C11-R4",
+			Old: "		availableEndpoints = h.handleConnectionFailure(ctx, endpoint, lastErr, attemptCount, availableEndpoints, maxRetries)", New: "		availableEndpoints = h.handleConnectionFailure(ctx, endpoint, lastErr, attemptCount, availableEndpoints, maxRetries)\n		if fresh, ferr := h.discoveryService.GetHealthyEndpoints(ctx); ferr == nil && len(fresh) > 0 {\n			availableEndpoints = fresh\n		}"},
+		Mutant{Prop: "C14", Name: "retry-refreshes-candidates", File: "internal/adapter/proxy/core/retry.go", Rule: "C14-R4",
+			Old: "		availableEndpoints = h.handleConnectionFailure(ctx, endpoint, lastErr, attemptCount, availableEndpoints, maxRetries)", New: "		availableEndpoints = h.handleConnectionFailure(ctx, endpoint, lastErr, attemptCount, availableEndpoints, maxRetries)\n		if fresh, ferr := h.discoveryService.GetHealthyEndpoints(ctx); ferr == nil && len(fresh) > 0 {\n			availableEndpoints = fresh\n		}"},
+		Mutant{Prop: "C15", Name: "handler-calls-backend-directly", File: "internal/app/handlers/handler_proxy.go", Rule: "C15-R4",
+			Old: "func (a *Application) handleEndpointError(w http.ResponseWriter, pr *proxyRequest, err error) {\n", New: "func (a *Application) handleEndpointError(w http.ResponseWriter, pr *proxyRequest, err error) {\n	if resp, gerr := http.Get(\"http://localhost:11434/api/version\"); gerr == nil {\n		resp.Body.Close()\n	}\n"},
+		Mutant{Prop: "C20", Name: "deferred-drain", File: "internal/adapter/proxy/sherpa/service_retry.go", Rule: "C20-R7",
+			Old: "	defer resp.Body.Close()", New: "	defer func(b io.ReadCloser) { _, _ = io.CopyN(io.Discard, b, 64<<10); b.Close() }(resp.Body)",
+			Edits: []Edit{{"internal/adapter/proxy/sherpa/service_retry.go", "	\"fmt\"\n", "	\"fmt\"\n	\"io\"\n"}}},
+		// new offending constructs next to known findings
+		Mutant{Prop: "C19", Name: "new-error-write-without-flag", File: "internal/app/handlers/handler_translation.go", Rule: "C19-R6", Expect: "executeTranslatedStreamingRequest",
+			Old: "	// safety check - should never trigger but prevents bugs\n	if len(endpoints) == 0 {", New: "	if pr.model == \"\" {\n		http.Error(w, \"model required\", http.StatusBadRequest)\n		return nil\n	}\n	// safety check - should never trigger but prevents bugs\n	if len(endpoints) == 0 {"},
+		Mutant{Prop: "C19", Name: "new-early-return-without-outcome", File: "internal/adapter/proxy/core/retry.go", Rule: "C19-R5", Expect: "request too large",
+			Old: "	var lastErr error\n	maxRetries := len(endpoints)", New: "	if len(bodyBytes) > 64<<20 {\n		return fmt.Errorf(\"request too large for retry buffer\")\n	}\n	var lastErr error\n	maxRetries := len(endpoints)"},
+	)
+}
